@@ -298,6 +298,12 @@ func (s *Server) deliver(rsps jmessages, ch sender, elapsed time.Duration) error
 		}
 	}
 
+	if ch == nil {
+		// The server was already stopped when this batch was dequeued (only
+		// retained notifications are dispatched then): there is no channel
+		// left to report an invalid notification on.
+		return s.err
+	}
 	nw, err := encode(ch, rsps)
 	bytesWrittenCount.Add(int64(nw))
 	return err
